@@ -1,4 +1,5 @@
 import UgoVerif.Proofs.VMInv
+import UgoVerif.VM.Copy
 /-
   C06 helper layer 2: the helpers of the VM model that never touch the control part
   (frames, sp, curFrame, frameIndex, err, …) — `Keeps` lemmas proved with `mvcgen`,
@@ -187,5 +188,18 @@ theorem keeps_bindArgs (code : Code) (bp numArgs flags : Int) : Keeps (bindArgs 
 @[spec] theorem bindArgs_spec (code : Code) (bp numArgs flags : Int) (c0 : CP) :
     ⦃fun s => ⌜c0 = cp s⌝⦄ bindArgs code bp numArgs flags ⦃post⟨fun _ s => ⌜cp s = c0⌝, fun _ s => ⌜cp s = c0⌝⟩⦄ :=
   (keeps_bindArgs code bp numArgs flags).spec c0
+
+/-- `Copier.Copy()` of OpStoreModule only allocates -/
+theorem keeps_copyV (v : V) : Keeps (copyV v) := by
+  keeps_start; mvcgen [copyV, getS, unsupported]; all_goals vm_same
+@[spec] theorem copyV_spec (v : V) (c0 : CP) :
+    ⦃fun s => ⌜c0 = cp s⌝⦄ copyV v ⦃post⟨fun _ s => ⌜cp s = c0⌝, fun _ s => ⌜cp s = c0⌝⟩⦄ := (keeps_copyV v).spec c0
+
+/-- xOpUnary touches nothing -/
+theorem keeps_vUnary (F : FloatOps) (tok : Tok) (r : V) : Keeps (vUnary F tok r) := by
+  keeps_start; mvcgen [vUnary, UgoVerif.VM.panic, unsupported]; all_goals vm_same
+@[spec] theorem vUnary_spec (F : FloatOps) (tok : Tok) (r : V) (c0 : CP) :
+    ⦃fun s => ⌜c0 = cp s⌝⦄ vUnary F tok r ⦃post⟨fun _ s => ⌜cp s = c0⌝, fun _ s => ⌜cp s = c0⌝⟩⦄ :=
+  (keeps_vUnary F tok r).spec c0
 
 end UgoVerif.Proofs.VM
